@@ -179,7 +179,14 @@ impl C17 {
         }
         // guest-side observation: pop everything
         let pops = total;
-        let mut code = vec![0x58u8; pops + 1];
+        // the frame is popped into every general-purpose register in turn (all `pop r64` forms except pop rsp)
+        const POP_REGS: [SR; 15] = [SR::RAX, SR::RCX, SR::RDX, SR::RBX, SR::RBP, SR::RSI, SR::RDI, SR::R8, SR::R9, SR::R10, SR::R11, SR::R12, SR::R13, SR::R14, SR::R15];
+        const POP_ENC: [&[u8]; 15] = [&[0x58], &[0x59], &[0x5a], &[0x5b], &[0x5d], &[0x5e], &[0x5f], &[0x41, 0x58], &[0x41, 0x59], &[0x41, 0x5a], &[0x41, 0x5b], &[0x41, 0x5c], &[0x41, 0x5d], &[0x41, 0x5e], &[0x41, 0x5f]];
+        let rot = (k % 15) as usize;
+        let mut code: Vec<u8> = Vec::new();
+        for i in 0..pops + 1 {
+            code.extend_from_slice(POP_ENC[(i + rot) % 15]);
+        }
         code.push(0x90);
         if !call(|| {
             ax.mem_init_area(POPS_AT, code.clone())?;
@@ -199,7 +206,10 @@ impl C17 {
                 Call::Ok(_) => {}
                 other => return fail(col, "pop-failed", format!("pop #{} of {} -> {}", i, pops, other.describe())),
             }
-            popped.push(ax.reg_read_64(SR::RAX).unwrap_or(0));
+            // poison the other registers' view: the value must arrive in the register the instruction names
+            let dest = POP_REGS[(i + rot) % 15];
+            popped.push(ax.reg_read_64(dest).unwrap_or(0));
+            let _ = ax.reg_write_64(dest, 0x5a5a_0000_0000_0000 | i as u64);
             slots.push(rsp_before);
         }
         if popped[0] != argv.len() as u64 {
